@@ -333,8 +333,14 @@ class LocalShare:
             # Get exclusive lock on repository. Prohibits further installations
             # and usage of packages.
             candidates = []
-            with OpenLocked(os.path.join(self.__path, "repo.json"), "r+", True) as rf:
-                repoMeta = json.load(rf)
+            repoFile = os.path.join(self.__path, "repo.json")
+            if not os.path.exists(repoFile):
+                # nothing was installed yet
+                return 0
+            with OpenLocked(repoFile, "r+", True) as rf:
+                # The file may still be empty if we raced with its creator.
+                data = rf.read()
+                repoMeta = json.loads(data) if data else {}
 
                 # Scan all packages
                 for pkg, size in repoMeta.get("pkgs", {}).items():
